@@ -177,7 +177,9 @@ func (r *Run) nontrivial() bool {
 	}
 	p := r.probes
 	switch r.or.Property {
-	case "C01", "C05", "C12", "C06", "C09", "C03", "C15", "C08", "C18", "C10":
+	case "C12":
+		return len(r.firedFaults) >= 1 && p["converge_checked"] >= 1 && r.reconciles >= 2
+	case "C01", "C05", "C06", "C09", "C03", "C15", "C08", "C18", "C10":
 		return p["fresh_compared"]+p["router_compared"]+p["model_compared"] >= 2 && r.reconciles >= 2
 	case "C02":
 		return p["effective_compared"] >= 1 && p["dyn_update_cmds"] >= 1
